@@ -6,6 +6,9 @@ def check(ctx):
     prog, rep = ctx.prog, ctx.rep
     n = tz.check(ctx, rep)
     rep.floor("zone-mapping call sites (TimeZone::*, with_timezone)", n, 8)
+    from rules import escapes
+    nt = escapes.check_timestamp_format(ctx, rep)
+    rep.floor("timestamp formatting call sites", nt, 2)
     E = [b.id for b in prog.bodies.values() if b.file.startswith("src/haystack/timezone/") or b.file.endswith("val/datetime.rs")]
     rep.floor("timezone / DateTime functions", len(E), 15)
     pr = panic.PanicRule(ctx)
